@@ -312,6 +312,36 @@ def csv_part(rep, rng, runq, todo, quick):
                 mk[k, 0] = False
         tables.append(mk)
     tmpdir = tempfile.mkdtemp(prefix="c14_", dir=C._scratch())
+    # integer column labels may be negative or signed (days before / after an event): they are the abscissae all the same
+    for hi, hdr_i in enumerate(([-18, -12, -6, 0, 6, 12], [-3, -1, 4], [-7, -2])):
+        for with_missing in (False, True):
+            r, c = 3, len(hdr_i)
+            vals = fd.dyadic_matrix(rng, r, c)
+            mk = np.zeros((r, c), bool)
+            if with_missing:
+                mk[1, 0] = mk[2, c - 1] = True
+            path = os.path.join(tmpdir, f"neg{hi}_{int(with_missing)}.csv")
+            with open(path, "w") as fh:
+                fh.write(",".join(("+" + str(v) if (v > 0 and hi == 1) else str(v)) for v in hdr_i) + "\n")
+                for k in range(r):
+                    fh.write(",".join("" if mk[k, j] else repr(float(vals[k, j])) for j in range(c)) + "\n")
+            rep.case(("csv-negative-labels", hi, with_missing), kind="read_csv/negative-integer-labels")
+            try:
+                with warnings.catch_warnings():
+                    warnings.simplefilter("ignore")
+                    out = read_csv(path)
+                if isinstance(out, DenseFunctionalData):
+                    got = [list(zip(np.asarray(out.argvals["input_dim_0"]).tolist(), np.asarray(out.values)[k].tolist())) for k in range(out.n_obs)]
+                else:
+                    got = [list(zip(np.asarray(out.argvals[k]["input_dim_0"]).tolist(), np.asarray(out.values[k]).tolist())) for k in range(out.n_obs)]
+                want = [[(float(hdr_i[j]), float(vals[k, j])) for j in range(c) if not mk[k, j]] for k in range(r)]
+                ok_kind = isinstance(out, DenseFunctionalData) == (not with_missing)
+                if not ok_kind or [[(float(a_), float(v_)) for a_, v_ in row] for row in got] != want:
+                    rep.violation("read_csv with negative / signed integer column labels: the abscissae are not the integer labels (or "
+                                  "dense-iff-complete fails)", {"header": hdr_i, "missing": mk.astype(int).tolist(), "values": C.hexf(vals),
+                                                               "got": str(got)[:300]})
+            except Exception as e:  # noqa: BLE001
+                rep.violation(f"read_csv raised {type(e).__name__}: {e} on negative integer column labels"[:250], {"header": hdr_i})
     for idx, mk in enumerate(tables):
         r, c = mk.shape
         vals = fd.dyadic_matrix(rng, r, c)
